@@ -1,6 +1,7 @@
 package mc
 
 import (
+	"crypto/sha256"
 	"fmt"
 	"runtime"
 	"runtime/debug"
@@ -53,6 +54,15 @@ type node struct {
 	path []string
 }
 
+// stateID compresses a canonical state key to 16 bytes (collision probability for
+// 10^8 states ~ 10^-23), so that the visited set stays small.
+func stateID(k string) [16]byte {
+	h := sha256.Sum256([]byte(k))
+	var id [16]byte
+	copy(id[:], h[:16])
+	return id
+}
+
 func opClass(op string) string {
 	if i := strings.IndexAny(op, "( "); i > 0 {
 		return op[:i]
@@ -96,6 +106,9 @@ func (b *BFS) Run() {
 	if b.Workers <= 0 {
 		b.Workers = runtime.NumCPU()
 	}
+	if b.MaxStates == 0 {
+		b.MaxStates = 6000000 // memory guard: frontier paths + visited set stay below a few GB
+	}
 	seen := sync.Map{}
 	var root Instance
 	b.guard(nil, func() { root = b.Init() })
@@ -103,7 +116,7 @@ func (b *BFS) Run() {
 		b.C.HarnessError(b.Name + ": cannot build root instance")
 		return
 	}
-	seen.Store(b.Key(root), true)
+	seen.Store(stateID(b.Key(root)), true)
 	b.States = 1
 	b.guard(nil, func() { b.Check(root, nil) })
 	if b.Close != nil {
@@ -183,7 +196,7 @@ func (b *BFS) Run() {
 							atomic.AddInt64(&b.Transitions, 1)
 							cnt, _ := b.PerOp.LoadOrStore(opClass(op), new(int64))
 							atomic.AddInt64(cnt.(*int64), 1)
-							k := b.Key(in)
+							k := stateID(b.Key(in))
 							if _, dup := seen.LoadOrStore(k, true); dup {
 								atomic.AddInt64(&b.Dups, 1)
 								return
